@@ -7,6 +7,7 @@ mod refasm;
 mod refsim;
 mod simutil;
 mod asmutil;
+mod objutil;
 mod props;
 
 use json::Json;
